@@ -78,7 +78,10 @@ TRound == IsEvent("SRound") /\ E.ok = 1 /\ placedDue' = TRUE /\ UNCHANGED <<node
 \* all previously stored points remain readable
 TRead == IsEvent("SRead") /\ E.ok = 1 /\ E.ids = E.want /\ UNCHANGED <<nodes, fowner, rowner, fault, prev, placedDue, kf>>
 
-TraceNext == TReset \/ TTree \/ TRecs \/ TSync \/ TDied \/ TRound \/ TRead
+\* old versions of moving records planted on their destinations before the synchronisation (no effect by itself)
+TPlant == IsEvent("SPlant") /\ UNCHANGED <<nodes, fowner, rowner, fault, prev, placedDue, kf>>
+
+TraceNext == TPlant \/ TReset \/ TTree \/ TRecs \/ TSync \/ TDied \/ TRound \/ TRead
 TraceSpec == TraceInit /\ [][TraceNext]_vars
 
 WF == TRUE
